@@ -157,13 +157,26 @@ def instances(tier="quick"):
     for op in ("loop", "loope", "loopne", "jecxz"):
         add("%s .+0x12" % op, op, 32, "rel8", targets=[0x12])
         add("%s .-0x40" % op, op, 32, "rel8", targets=[-0x40])
-    # the counter of loop / jecxz is selected by the ADDRESS size (67: cx), not by the operand size (66: still ecx; a taken branch then
-    # truncates eip and faults in the executor, so only the not-taken outcome of the 66 forms is observed)
+    # the counter of loop / jecxz is selected by the ADDRESS size (67: cx), not by the operand size (66: still ecx).  A 66-prefixed near
+    # branch truncates eip to 16 bits, so these instances run in the executor's code page below 64 KiB (low=True, instruction at 0x8800;
+    # 3..5 byte encodings, target +0x20 so that the fall-through stub and the target stub do not overlap)
     add("jcxz .+0x12", "jecxz", 32, "rel8-a16", targets=[0x12])
     for op in ("loop", "loope", "loopne"):
         add("addr16 %s .+0x12" % op, op, 32, "rel8-a16", targets=[0x12])
     add("addr16 loop .-0x40", "loop", 32, "rel8-a16", targets=[-0x40])
-    add(".byte 0x66, 0xe3, 0x0f", "jecxz", 32, "rel8-o16", targets=[0x12])
-    add(".byte 0x66, 0xe2, 0x0f", "loop", 32, "rel8-o16", targets=[0x12])
-    add(".byte 0x66, 0xe1, 0x0f", "loope", 32, "rel8-o16", targets=[0x12])
+    for opc, op in ((0xe3, "jecxz"), (0xe2, "loop"), (0xe1, "loope"), (0xe0, "loopne")):
+        add(".byte 0x66, 0x%02x, 0x1d" % opc, op, 32, "rel8-o16", targets=[0x20], low=True)
+    add(".byte 0x66, 0x67, 0xe2, 0x1c", "loop", 32, "rel8-a16-o16", targets=[0x20], low=True)
+    add(".byte 0x66, 0x67, 0xe3, 0x1c", "jecxz", 32, "rel8-a16-o16", targets=[0x20], low=True)
+    for n, cc in enumerate(("o", "no", "b", "ae", "e", "ne", "be", "a", "s", "ns", "p", "np", "l", "ge", "le", "g")):
+        if full or n % 3 == 1:
+            add(".byte 0x66, 0x%02x, 0x1d" % (0x70 + n), "jcc", 32, "rel8-o16", cc=cc, targets=[0x20], low=True)
+        if full or n % 3 == 2:
+            add(".byte 0x66, 0x0f, 0x%02x, 0x1b, 0x00" % (0x80 + n), "jcc", 32, "rel16-o16", cc=cc, targets=[0x20], low=True)
+    add(".byte 0x66, 0xeb, 0x1d", "jmp", 32, "rel8-o16", targets=[0x20], low=True)
+    add(".byte 0x66, 0xe9, 0x1c, 0x00", "jmp", 32, "rel16-o16", targets=[0x20], low=True)
+    add(".byte 0x66, 0xe8, 0x1c, 0x00", "call", 32, "rel16-o16", targets=[0x20], low=True)
+    add(".byte 0x66, 0xff, 0xd0", "call", 32, "ind_r-o16", ind="eax", low=True)
+    add(".byte 0x66, 0xff, 0xe3", "jmp", 32, "ind_r-o16", ind="ebx", low=True)
+    add(".byte 0x66, 0xc3", "ret", 32, "none-o16", ind="stack", low=True)
     return out
